@@ -318,6 +318,21 @@ CHECKS['C19'] = {
     ],
 }
 
+CHECKS['C10'] = {
+    'level': 'exploration',
+    'technique': 'schedule-exploring property testing: Ref<>/RefCountable/ObjectPool on the harness-owned scheduler with yield points before and after every atomic reference-count operation and around the pool mutex; generated reference-manipulation scripts; identity-stamp and release-state-machine invariants; plus a free-running ThreadSanitizer supplement for atomicity of the primitives',
+    'level_text': ('Generated (script, schedule) search: 1-3 threads x 2-8 operations (copy, reset, obtain from a small pool or from the heap, swap, move, const-cast, publish to / take from a mutex-guarded mailbox, temporaries) over ObjectPool<Obj,128> with maxPoolSize 0-4 so slabs are created, recycled and deleted within a run; single-threaded histories included. '
+                   'Oracle: a referenced object keeps its identity stamp, liveness mark and non-zero count; an obtained object is in default state, unowned and count 0; no object is released twice; constructor and destructor counts agree once the pool is gone; ObjectPool::PerformSanityCheck; ASan for use-after-free/double free. '
+                   'Second target (c10_tsan): the same operations free-running on 8 real threads under ThreadSanitizer, which sees what the scheduler cannot (loss of atomicity inside a primitive, a dropped mutex guard). Held = no explored schedule and no TSan run reported a problem; TSan silence proves nothing beyond the runs made.'),
+    'level_note': SC_NOTE,
+    'rule': ('Byte-decoded cases: configuration + scripts + schedule. Non-trivial: (multi-threaded) at least one preemption and an object whose final release was performed by a thread other than the one that obtained it; (single-threaded) >= 2 objects obtained. Distinct: hash of configuration, scripts and choices. c10_tsan counts iterations.'),
+    'assumptions': [],
+    'targets': [
+        {'name': 'c10_refcount', 'src': ['harness/C10_refcount.cpp'], 'quick_n': 600000, 'thorough_n': 10000000, 'maxlen': 300, 'min_nontrivial': 50000, 'budget': 120,
+         'class_floors': {'case_single_threaded_history': 50000, 'case_multi_threaded': 200000, 'case_final_release_by_another_thread': 50000}},
+    ],
+}
+
 
 def setup():
     t0 = time.time()
